@@ -7,7 +7,7 @@ RULE = ("cases: id <ssid> (NewID with the clock second, sequence number and proc
         "(consecutive ids sort descending and are distinct, incl. across the 2^32 sequence wrap), idconc (concurrent "
         "creation), settime over the supported time range, msg / frame (Encode, inner bytes below snappy, Decode), split "
         "<max> <sizes> (boundary sizes around the bound), and peer-queue sessions reset / psend / pflush (incl. inactive "
-        "peer, empty flush, messages at or above the 10 MiB bound) and pconc (senders racing a flusher). "
+        "peer, empty flush, messages at or above the 10 MiB bound) and pconc (senders racing a flusher), pduring (a message handed over while a flush is writing to the transport, then only flushes). "
         "non-trivial = distinct line with a non-error answer")
 TRUSTED = ["snappy (block format) and kelindar/binary's reflection plumbing are exercised, not modelled: the model starts at the uvarint/bytes layout written by messageCodec",
            "time.Now, crypto/rand (process nonce) and the atomic sequence counter are inputs reported by a hook"]
@@ -86,4 +86,6 @@ def gen(rng, tier):
     for size in ([10485760 - 21, 10485760 - 20, 10485760] if tier != "thorough" else [10485760 - 21, 10485760 - 20, 10485760 - 19, 10485760, 11000000]):
         ops += ["reset", "psend 1 1 10", "psend 1 2 %d" % size, "psend 1 3 10", "pflush", "pflush"]
     ops.append("pconc 6 %d" % budget(tier, 2000, 50000))
+    for k in (0, 1, 2, 3):
+        ops.append("pduring %d" % k)
     return ops
